@@ -100,6 +100,29 @@ class NixList(TypedExpression):
             inner_trivia=inner_trivia,
         )
 
+    @staticmethod
+    def _render_item(expr: NixExpression, *, indent: int, inline: bool) -> str:
+        """Render one element; a negative number literal must be parenthesized
+        because a list element cannot start with a unary minus."""
+        from nix_manipulator.expressions.float import FloatExpression
+        from nix_manipulator.expressions.primitive import Primitive
+
+        text = expr.rebuild(indent=indent, inline=inline)
+        negative = False
+        if isinstance(expr, FloatExpression):
+            negative = str(expr.value).startswith("-")
+        elif isinstance(expr, Primitive):
+            value = expr.value
+            negative = (
+                isinstance(value, (int, float))
+                and not isinstance(value, bool)
+                and value < 0
+            )
+        if negative and not expr.before and not expr.after:
+            lead = len(text) - len(text.lstrip(" "))
+            text = f"{text[:lead]}({text[lead:]})"
+        return text
+
     def _item_requires_multiline(self, expr: NixExpression) -> bool:
         """Detect items that force multiline output to preserve readability."""
         if expr.before or expr.after:
@@ -134,7 +157,7 @@ class NixList(TypedExpression):
         if not self.value:
             return "[ ]"
         items = [
-            coerce_expression(item).rebuild(indent=indent, inline=True)
+            self._render_item(coerce_expression(item), indent=indent, inline=True)
             for item in self.value
         ]
         return f"[ {' '.join(items)} ]"
@@ -190,7 +213,7 @@ class NixList(TypedExpression):
         def render_item(item: NixExpression | str | int | bool | float | None) -> str:
             """Render list items consistently based on multiline decision."""
             expr = coerce_expression(item)
-            return expr.rebuild(indent=indented, inline=not multiline)
+            return self._render_item(expr, indent=indented, inline=not multiline)
 
         items = [render_item(item) for item in self.value]
 
